@@ -196,6 +196,30 @@ def run(ctx, env):
             vname = val[2] if val[0] == "field" else None
             ok = kname is not None and kname == vname and peel(val[1]) == ("arg", 1)
             ctx.ob("R16.2", tname, "key=value-field:%s" % vname, ok, 'serialize_field("%s", &self.%s)' % (kname, vname), site=b.line(blk))
+            # conditional emission: the only accepted guard is `Option::is_none(&self.<same field>)` == false
+            for sb in sorted(b.live_blocks()):
+                st = b.term(sb)
+                if st["k"] != "switch" or sb == blk:
+                    continue
+                ge, neg = strip_not(an.op(b, st["op"]))
+                if ge[0] == "discr":
+                    continue
+                be = bool_edges(st, neg)
+                if not be:
+                    continue
+                tt, ff = be
+                on_true = b.edge_dominates((sb, tt), blk)
+                on_false = b.edge_dominates((sb, ff), blk)
+                if not (on_true or on_false) or (on_true and on_false):
+                    continue
+                okg = False
+                if ge[0] == "call" and ge[2] is not None and ge[2].npath in ("std::option::Option::is_none",) and on_false:
+                    garg = peel(ge[3][0])
+                    okg = garg[0] == "field" and garg[2] == vname and peel(garg[1]) == ("arg", 1)
+                ctx.ob("R16.2", tname, "emitted-unless-None:%s" % vname, okg,
+                       "field %s is emitted only when %s is %s — %s" % (vname, canon(ge)[:120], "false" if on_false else "true",
+                                                                  "the standard skip-if-None" if okg else "a decoded value can be silently absent from the JSON (JSON no longer equals the decoded structure)"),
+                       site=b.line(sb))
     ctx.floor("R16.2", "type-graph", "serialize_field call sites", nsf, 100)
     # R16.3
     bodies = reach_bodies(prog, ALL_ROOTS)
